@@ -53,6 +53,7 @@ type Obj struct {
 	Group, Version, Kind, Name, UID string
 	Labels, Annots                  map[string]string
 	Owners                          []Ref
+	NS                              string // namespace; "" = the default namespace ns
 }
 
 // Pod is a sibling pod.
@@ -61,6 +62,14 @@ type Pod struct {
 	Labels, Annots map[string]string
 	Prio           string // spec.priorityClassName
 	Owners         []Ref
+	NS             string // namespace; "" = the default namespace ns
+}
+
+func nsOr(s string) string {
+	if s == "" {
+		return ns
+	}
+	return s
 }
 
 // CMEntry is one element of the defaults config map's "types" JSON array.
@@ -111,7 +120,7 @@ func strMap(m map[string]string) map[string]interface{} {
 }
 
 func (o Obj) unstructured() *unstructured.Unstructured {
-	md := map[string]interface{}{"name": o.Name, "namespace": ns, "uid": o.UID}
+	md := map[string]interface{}{"name": o.Name, "namespace": nsOr(o.NS), "uid": o.UID}
 	if len(o.Labels) > 0 {
 		md["labels"] = strMap(o.Labels)
 	}
@@ -130,7 +139,7 @@ func (o Obj) unstructured() *unstructured.Unstructured {
 func (p Pod) k8s() *v1.Pod {
 	pod := &v1.Pod{
 		TypeMeta:   metav1.TypeMeta{Kind: "Pod", APIVersion: "v1"},
-		ObjectMeta: metav1.ObjectMeta{Name: p.Name, Namespace: ns, UID: types.UID(p.UID)},
+		ObjectMeta: metav1.ObjectMeta{Name: p.Name, Namespace: nsOr(p.NS), UID: types.UID(p.UID)},
 		Spec:       v1.PodSpec{SchedulerName: schedulerName, PriorityClassName: p.Prio},
 	}
 	if len(p.Labels) > 0 {
@@ -191,7 +200,19 @@ type Instance struct {
 	Handler    *podgroup.Handler
 	Reconciler *controllers.PodReconciler
 	calls      Calls
+	// the answers of the API server to the GETs of the uncached client (fault worlds): the rule in force -
+	// (namespace, kind) pairs answered 403, changed by grant / revoke events - and the transient faults of the
+	// reconcile that is running (kind -> faultForbidden / faultNotFound / faultServer)
+	rbac      map[[2]string]bool
+	transient map[string]int
+	ownerGets []string // the uncached GETs of the running reconcile with their answers (diagnostics)
 }
+
+const (
+	faultForbidden = 1
+	faultNotFound  = 2
+	faultServer    = 3
+)
 
 func newScheme() *runtime.Scheme {
 	s := runtime.NewScheme()
@@ -297,9 +318,20 @@ func NewInstance(w *World) *Instance {
 	uncached := interceptor.NewClient(in.Base, interceptor.Funcs{
 		Get: func(ctx context.Context, c client.WithWatch, key client.ObjectKey, obj client.Object, opts ...client.GetOption) error {
 			kind := obj.GetObjectKind().GroupVersionKind().Kind
-			if forbidden[kind] {
+			// the authorizer first: a static refusal of the kind, the namespaced rule, a rule that is applied a moment later
+			if forbidden[kind] || in.rbac[[2]string{key.Namespace, kind}] || in.transient[kind] == faultForbidden {
+				in.ownerGets = append(in.ownerGets, kind+":403")
 				return apierrors.NewForbidden(schema.GroupResource{Resource: kind}, key.Name, fmt.Errorf("rbac"))
 			}
+			switch in.transient[kind] {
+			case faultNotFound:
+				in.ownerGets = append(in.ownerGets, kind+":404")
+				return apierrors.NewNotFound(schema.GroupResource{Resource: kind}, key.Name)
+			case faultServer:
+				in.ownerGets = append(in.ownerGets, kind+":500")
+				return apierrors.NewInternalError(fmt.Errorf("etcd leader changed"))
+			}
+			in.ownerGets = append(in.ownerGets, kind+":ok")
 			return c.Get(ctx, key, obj, opts...)
 		},
 	})
@@ -319,21 +351,47 @@ func NewInstance(w *World) *Instance {
 // mutating calls it issued and whether it returned an error.
 func (in *Instance) Reconcile(i int) (Calls, bool) {
 	in.calls = Calls{}
-	_, err := in.Reconciler.Reconcile(context.Background(), ctrl.Request{NamespacedName: types.NamespacedName{Namespace: ns, Name: in.W.Pods[i].Name}})
+	in.ownerGets = nil
+	_, err := in.Reconciler.Reconcile(context.Background(), ctrl.Request{NamespacedName: types.NamespacedName{Namespace: nsOr(in.W.Pods[i].NS), Name: in.W.Pods[i].Name}})
 	return in.calls, err != nil
 }
 
+// ReconcileUnder runs Reconcile on pod i while the uncached GETs of the given kinds are answered with the given
+// transient faults (in force during this reconcile only).
+func (in *Instance) ReconcileUnder(i int, transient map[string]int) (Calls, bool) {
+	in.transient = transient
+	defer func() { in.transient = nil }()
+	return in.Reconcile(i)
+}
+
+// SetRule grants (forbidden = false) or revokes (true) the right to GET kind in namespace.
+func (in *Instance) SetRule(namespace, kind string, forbidden bool) {
+	if in.rbac == nil {
+		in.rbac = map[[2]string]bool{}
+	}
+	if forbidden {
+		in.rbac[[2]string{namespace, kind}] = true
+	} else {
+		delete(in.rbac, [2]string{namespace, kind})
+	}
+}
+
 // PodGroups lists the stored PodGroups sorted by name.
-func (in *Instance) PodGroups() []kaiv2.PodGroup {
+func (in *Instance) PodGroups() []kaiv2.PodGroup { return in.PodGroupsIn(ns) }
+
+// PodGroupsIn lists the stored PodGroups of a namespace sorted by name.
+func (in *Instance) PodGroupsIn(namespace string) []kaiv2.PodGroup {
 	l := &kaiv2.PodGroupList{}
-	must(in.Base.List(context.Background(), l, client.InNamespace(ns)))
+	must(in.Base.List(context.Background(), l, client.InNamespace(namespace)))
 	sort.Slice(l.Items, func(a, b int) bool { return l.Items[a].Name < l.Items[b].Name })
 	return l.Items
 }
 
-func (in *Instance) PodGroup(name string) *kaiv2.PodGroup {
+func (in *Instance) PodGroup(name string) *kaiv2.PodGroup { return in.PodGroupIn(ns, name) }
+
+func (in *Instance) PodGroupIn(namespace, name string) *kaiv2.PodGroup {
 	pg := &kaiv2.PodGroup{}
-	if err := in.Base.Get(context.Background(), types.NamespacedName{Namespace: ns, Name: name}, pg); err != nil {
+	if err := in.Base.Get(context.Background(), types.NamespacedName{Namespace: namespace, Name: name}, pg); err != nil {
 		return nil
 	}
 	return pg
@@ -341,6 +399,6 @@ func (in *Instance) PodGroup(name string) *kaiv2.PodGroup {
 
 func (in *Instance) Pod(i int) *v1.Pod {
 	p := &v1.Pod{}
-	must(in.Base.Get(context.Background(), types.NamespacedName{Namespace: ns, Name: in.W.Pods[i].Name}, p))
+	must(in.Base.Get(context.Background(), types.NamespacedName{Namespace: nsOr(in.W.Pods[i].NS), Name: in.W.Pods[i].Name}, p))
 	return p
 }
